@@ -114,6 +114,7 @@ struct Global {
   bool in_case = false;
   std::map<std::string, uint64_t> counters;
   std::unordered_set<uint64_t> sigs;
+  std::vector<uint64_t> new_sigs;   // not yet appended to <out>.sigs (flushed at every tick so a crash loses at most 64 cases' worth)
   std::set<std::string> viol_keys_this_case;
   uint64_t violations = 0;
   uint64_t cases_done = 0;
@@ -138,7 +139,14 @@ inline void emit(const std::string& line) { if (G().out_fd >= 0) raw_write(G().o
 inline void count(const std::string& name, uint64_t by = 1) { G().counters[name] += by; }
 inline void checked(uint64_t by = 1) { G().checks += by; }
 // state signature of a non-trivial distinct case/state
-inline void sig(uint64_t h) { if (G().sigs.size() < 4000000) G().sigs.insert(h); }
+inline void sig(uint64_t h) { Global& g = G(); if (g.sigs.size() < 4000000 && g.sigs.insert(h).second) g.new_sigs.push_back(h); }
+inline void flush_sigs() {
+  Global& g = G();
+  if (g.out_path.empty() || g.new_sigs.empty()) return;
+  FILE* f = fopen((g.out_path + ".sigs").c_str(), "ab");
+  if (f) { fwrite(g.new_sigs.data(), 8, g.new_sigs.size(), f); fclose(f); }
+  g.new_sigs.clear();
+}
 
 inline std::string counters_json() {
   std::string o = "{";
@@ -241,7 +249,7 @@ int main(int argc, char** argv) {
     if (g.only_case >= 0) { if (c != static_cast<uint64_t>(g.only_case)) continue; }
     else { if (c % g.nshards != g.shard) continue; if (c < g.start_case) continue; }
     g.cur_case = c; g.in_case = true; g.cur_desc.clear(); g.viol_keys_this_case.clear();
-    if ((g.cases_done & 63) == 0) flush_progress("tick");
+    if ((g.cases_done & 63) == 0) { flush_progress("tick"); flush_sigs(); }
     arm_timer(tmo);
     Rng rng(mix64(mix64(g.seed, 0x5eedULL), c));
     try {
@@ -259,11 +267,7 @@ int main(int argc, char** argv) {
   g.cur_desc = "final_report";
   try { final_report(); } catch (const std::exception& e) { fail("harness|final-report-exception", e.what()); }
   // signatures
-  if (!g.out_path.empty()) {
-    std::string sp = g.out_path + ".sigs";
-    FILE* f = fopen(sp.c_str(), "ab");
-    if (f) { for (uint64_t s : g.sigs) fwrite(&s, 8, 1, f); fclose(f); }
-  }
+  flush_sigs();
   emit(std::string("{\"t\":\"done\",\"cases_done\":") + std::to_string(g.cases_done) + ",\"checks\":" + std::to_string(g.checks) +
        ",\"violations\":" + std::to_string(g.violations) + ",\"nsigs\":" + std::to_string(g.sigs.size()) +
        ",\"counters\":" + counters_json() + "}");
